@@ -248,6 +248,7 @@ void c11_discipline(Ctx &c, const std::string &site, const char *fn, bool failed
 	if (!want && err == 0) { c.violate("c11", site + ":errno", strf("%s reported a system error with errno 0", fn)); return; }
     }
     c.count(mode == C11_SILENT ? "c11.silent_failure_checked" : last >= 0 ? "c11.reported_failure_checked" : "c11.unreported_failure_seen");
+    if (mode != C11_SILENT && last < 0 && installed) c.count(std::string("c11.unreported.") + fn);
 }
 
 void c11_auto(Ctx &c, const char *fn, bool failed, int err)
@@ -261,7 +262,11 @@ void c11_auto(Ctx &c, const char *fn, bool failed, int err)
     else if (starts("vnacal_new_") || starts("vnacal_make_") || f == "vnacal_get_parameter_value" || f == "vnacal_delete_parameter" ||	// vnacal_new(3), vnacal_parameter(3)
 	    f == "vnacal_create" || f == "vnacal_save" || f == "vnacal_add_calibration" || starts("vnacal_apply")) mode = C11_MUST;	// vnacal(3)
     else if (starts("vnaproperty_import") || starts("vnaproperty_export")) mode = C11_MUST;
-    c11_discipline(c, f, fn, failed, err, c.cb_installed, mode);
+    // vnaproperty queries answer -1 / NULL for a node that exists but is null and leave errno alone
+    // (vnaproperty(3) documents this for get_subtree and is silent for the others): errno is judged
+    // by the document model at the call site, not here
+    if (failed && err == 0 && (f == "vnaproperty_type" || f == "vnaproperty_count" || f == "vnaproperty_keys" || f == "vnaproperty_get" || f == "vnaproperty_get_subtree")) { c.count("c11.null_node_query_seen"); return; }
+    c11_discipline(c, f, fn, failed, err, starts("vnaproperty_") && mode != C11_MUST ? false : c.cb_installed, mode);
 }
 
 void check_ledger_empty(Ctx &c, const char *when)
